@@ -129,6 +129,9 @@ HasFold(e, list) == \E j \in 1..Len(e.fold) : e.fold[j].list = list
 FoldOf(e, list) == IF HasFold(e, list)
                    THEN e.fold[CHOOSE j \in 1..Len(e.fold) : e.fold[j].list = list].node
                    ELSE IF PrintT(<<"MISS", e.id, "fold">>) THEN <<>> ELSE <<>>
+\* how the node obtained by stepping ckd from a fresh wallet prints itself (the format is the library's business;
+\* that the node looked up by path prints the same is part of "equals applying each component in order")
+FoldRepr(e, list) == e.fold[CHOOSE j \in 1..Len(e.fold) : e.fold[j].list = list].repr
 InRange(lst) == \A i \in 1..Len(lst) : Len(lst[i]) = 4
 \* the named deviation of the pinned code: everything after the fifth component is ignored
 TailIgnoredList(str) == LET t == Parse(TruncatedString(str)) IN IF t.kind = "ok" THEN t.list ELSE << <<-2>> >>
@@ -144,7 +147,10 @@ V_PathParse(e) ==            \* e.inp = str; e.res.v = [list, str, private]
           THEN IF Raised(e) THEN "parse-raised-on-valid"
                ELSE IF e.res.v.list # p.list THEN "parse-list"
                ELSE IF e.res.v.private # p.private THEN "parse-root"
-               ELSE IF e.res.v.str # Format(p.private, p.list) THEN "parse-format"
+               \* formatting then re-parsing is the identity (either marker may be printed): the printed string is read
+               \* back with the specification's own grammar
+               ELSE IF LET q == Parse(e.res.v.str)
+                       IN q.kind # "ok" \/ q.list # p.list \/ q.private # p.private THEN "parse-format"
                ELSE "ok"
      ELSE IF p.kind = "ok"       \* more than five levels: honoured in full or rejected
           THEN IF Raised(e) THEN "ok"
@@ -178,7 +184,7 @@ V_ByPath(e) ==               \* e.inp = [path, wallet]; e.res.v = [node, repr]
      ELSE IF p.kind = "ok" /\ Len(p.list) <= 5
           THEN IF Raised(e) THEN "bypath-raised-on-valid"
                ELSE IF e.res.v.node # FoldOf(e, p.list) THEN "bypath-not-fold-of-ckd"
-               ELSE IF e.res.v.repr # Format(TRUE, p.list) THEN "bypath-node-repr"
+               ELSE IF e.res.v.repr # FoldRepr(e, p.list) THEN "bypath-node-repr"
                ELSE "ok"
      ELSE IF p.kind = "ok"
           THEN IF Raised(e) THEN "ok"
